@@ -67,6 +67,18 @@ impl Pred {
     }
 }
 
+/// One step of a stepped iteration inside a sequential history (`Op::IterSteps`).
+#[derive(Clone, Debug, PartialEq, Eq, Serialize, Deserialize)]
+pub enum IterStep {
+    /// one `next()` call
+    Next,
+    /// the clock moves while the iterator is held
+    Advance { ns: u64 },
+    /// sync only: `invalidate_all()` takes no map lock, so the thread that holds the
+    /// iterator may call it
+    InvalidateAll,
+}
+
 #[derive(Clone, Debug, PartialEq, Eq, Serialize, Deserialize)]
 pub enum Op {
     /// `vid` is unique within a run.
@@ -88,6 +100,10 @@ pub enum Op {
     IterBegin,
     IterNext,
     IterEnd,
+    /// seq: one iterator, created, stepped through `script` (the clock may move and, on the
+    /// concurrent cache, `invalidate_all` may be called between two `next()` calls) and then
+    /// drained at the final reading.
+    IterSteps { script: Vec<IterStep> },
 }
 
 impl Op {
@@ -114,6 +130,7 @@ impl Op {
             Op::IterBegin => "iter_begin",
             Op::IterNext => "iter_next",
             Op::IterEnd => "iter_end",
+            Op::IterSteps { .. } => "iter_stepped",
         }
     }
 }
